@@ -2,8 +2,8 @@ import EventppVerif.CL.Model
 /-
   A tiny language for the straight-line pointer code of callbacklist.h (`doAppend`, `doInsert`,
   `doFreeNode`): paths (`head`, `tail`, a local node pointer, `p->previous`, `p->next`),
-  assignments between paths, "mark removed" (`p->counter = removedCounter`), `if` over "non-null"
-  and pointer equality.  `tools/translate.py` parses the bodies of those functions from the source on
+  assignments between paths, counter writes (`p->counter = removedCounter`, `= 1`), `if` over
+  "non-null" and pointer equality, `while(p)`.  `tools/translate.py` parses the bodies of those functions from the source on
   every run into terms of `Stmt` (Generated/ClFrag.lean); `exec` is their meaning on the same heap
   the hand-written Model uses; CL/PtrBridge.lean proves that the Model's `linkBack` / `linkBefore` /
   `freeNode` are exactly what the source statements compute.
@@ -30,10 +30,12 @@ deriving DecidableEq, Repr
 inductive Stmt
   | skip
   | assign (lhs rhs : Path)
-  /-- `p->counter = removedCounter` -/
-  | markRemoved (p : Path)
+  /-- `p->counter = v` (`removedCounter` is 0) -/
+  | setCounter (p : Path) (v : Nat)
   | seq (a b : Stmt)
   | ite (c : Cond) (t e : Stmt)
+  /-- `while(p) { body }` -/
+  | whileNN (p : Path) (body : Stmt)
 deriving DecidableEq, Repr
 
 structure PS where
@@ -69,9 +71,16 @@ def evalC (s : PS) : Cond → Bool × Bool
   | .nonnull p => ((evalP s p).1.isSome, (evalP s p).2)
   | .eq a b => (decide ((evalP s a).1 = (evalP s b).1), (evalP s a).2 || (evalP s b).2)
 
-def exec : Stmt → PS → PS
-  | .skip, s => s
-  | .assign lhs rhs, s =>
+/-- `while(cond) f`, at most `fuel` iterations -/
+def iter (f : PS → PS) (cond : PS → Bool) : Nat → PS → PS
+  | 0, s => s
+  | n + 1, s => if cond s then iter f cond n (f s) else s
+
+/-- meaning of a statement; `fuel` bounds every loop (the bridge theorems show it is the walk bound
+    the Model uses) -/
+def exec (fuel : Nat) : Stmt → PS → PS
+  | .skip => fun s => s
+  | .assign lhs rhs => fun s =>
     let (v, u) := evalP s rhs
     let s := { s with ub := s.ub || u }
     (match lhs with
@@ -83,15 +92,16 @@ def exec : Stmt → PS → PS
       match evalP s p with
       | (some n, u2) => { s with heap := upd s.heap n (setFld (s.heap n) f v), ub := s.ub || u2 }
       | (none, _) => { s with ub := true })
-  | .markRemoved p, s =>
+  | .setCounter p v => fun s =>
     (match evalP s p with
-    | (some n, u) => { s with heap := upd s.heap n { s.heap n with counter := 0 }, ub := s.ub || u }
+    | (some n, u) => { s with heap := upd s.heap n { s.heap n with counter := v }, ub := s.ub || u }
     | (none, _) => { s with ub := true })
-  | .seq a b, s => exec b (exec a s)
-  | .ite c t e, s =>
+  | .seq a b => fun s => exec fuel b (exec fuel a s)
+  | .ite c t e => fun s =>
     let (v, u) := evalC s c
     let s := { s with ub := s.ub || u }
-    if v then exec t s else exec e s
+    if v then exec fuel t s else exec fuel e s
+  | .whileNN p body => fun s => iter (exec fuel body) (fun s => (evalP s p).1.isSome) fuel s
 
 /-- the pointer state of a list object with the local variables set -/
 def ofCL (l : CL) (v0 v1 : Option Nat) : PS :=
